@@ -2320,7 +2320,7 @@ class Circuit(AbstractCircuit):
                 self._moments.insert(k, Moment())
                 if strategy is InsertStrategy.INLINE:
                     k += 1
-            max_p = 0
+            max_p = -1
             for moment_or_op in batch:
                 # Determine Placement
                 if self._placement_cache:
